@@ -1153,7 +1153,7 @@ def c01_r12(ctx):
 
 
 # ---------------------------------------------------------------------- C08.R5
-@rule("C08.R5", "the @mixin directive is declared repeatable, on fields and fragment definitions, with the two string arguments the generator reads", min_instances=4,
+@rule("C08.R5", "the @mixin directive is declared repeatable, on fields and fragment definitions, with the two string arguments the generator reads", min_instances=6,
       also=["C02", "C04", "C17"])
 def c08_r5(ctx):
     repo = ctx.repo
@@ -1176,9 +1176,29 @@ def c08_r5(ctx):
     ctx.check(keys in (["'from'", "'import'"], ["MIXIN_FROM_NAME", "MIXIN_IMPORT_NAME"]) and types_ok, key(fi, "arguments"),
               f"@mixin arguments are {keys} (String: {types_ok}); _parse_mixin_arguments reads `from` and `import` string values", fi.loc(d), okmsg="arguments: from / import, both String")
     # declared once: an existing declaration is kept
-    outs = Interp(fi, lambda e: True if " in " in norm(strip_pre(e)) and "MIXIN_NAME" in norm(strip_pre(e)) or "'mixin' in" in norm(strip_pre(e)) else None).run()
-    ctx.check(bool(outs) and all(o.kind == "return" and is_name(strip_pre(o.value), fi.node.args.args[0].arg) and not o.effects for o in outs), key(fi, "idempotent"),
-              "a schema that already declares @mixin is not returned unchanged", fi.loc(), okmsg="already declared -> schema returned unchanged")
+    def declared(v):
+        def atom(e):
+            t = str(norm(strip_pre(e)))
+            if t.startswith(("MIXIN_NAME not in ", "'mixin' not in ")):
+                return not v
+            if t.startswith(("MIXIN_NAME in ", "'mixin' in ")):
+                return v
+            return None
+        return atom
+    sp = fi.node.args.args[0].arg
+    effd = lambda c: is_name(c.func, "<setattr>")
+    outs = Interp(fi, declared(True), is_effect=effd).run()
+    ctx.check(bool(outs) and all(o.kind == "return" and is_name(strip_pre(o.value), sp) and not o.effects for o in outs), key(fi, "idempotent"),
+              f"a schema that already declares @mixin is not returned unchanged: {[o.text()[:80] for o in outs]}", fi.loc(), okmsg="already declared -> schema returned unchanged")
+    outs = Interp(fi, declared(False), is_effect=effd).run()
+    good = bool(outs) and all(o.kind == "return" and is_name(strip_pre(o.value), sp) for o in outs)
+    for o in outs:
+        good = good and any("'directives'" in norm(strip_pre(e)) and "GraphQLDirective(" in norm(strip_pre(e)) and f"{sp}.directives" in norm(strip_pre(e)) for e in o.effects)
+    adds = [st for st in fi.node.body if (isinstance(st, ast.AugAssign) and isinstance(st.op, ast.Add) and norm(st.target) == f"{sp}.directives" and "GraphQLDirective(" in norm(st.value)) or
+            (isinstance(st, ast.Assign) and norm(st.targets[0]) == f"{sp}.directives" and "GraphQLDirective(" in norm(st.value) and f"{sp}.directives" in norm(st.value))]
+    good = good and len(adds) == 1      # a top-level statement of the function: on every path that gets past the guard
+    ctx.check(good, key(fi, "declares"), f"a schema without @mixin must get the directive ADDED to its own directives and be returned: {[o.text()[:120] for o in outs]}", fi.loc(),
+              okmsg="not declared -> directive appended to schema.directives, schema returned")
 
 
 # ---------------------------------------------------------------------- C01.R13
